@@ -99,7 +99,7 @@ PROPS['C11'] = dict(modules=['Hagall.Props.C11'], profiles=['pose', 'mixed', 'jo
                     topics=slice_of(['updatePose', 'entityDelete', 'join', 'disconnect'], kinds=['queue'],
                                     outs={'poseBcast', 'sessionState', 'entityDeleteBcast'}))
 
-PROPS['C03'] = dict(modules=['Hagall.Props.C03', 'Hagall.Props.C03Trace'], profiles=['join', 'mixed', 'module', 'comp'], n=(240, 4000), focus={'join'}, extra=['noninterference', 'conc_explore'],
+PROPS['C03'] = dict(modules=['Hagall.Props.C03', 'Hagall.Props.C03Trace', 'Hagall.Props.C03Conc'], profiles=['join', 'mixed', 'module', 'comp'], n=(240, 4000), focus={'join'}, extra=['noninterference', 'conc_explore'],
                     topics=slice_of(ALL_TOPICS + ['disconnect'], kinds=['state'],
                                     pred=lambda d: d.get('kind') != 'delivery' or d.get('conn') != d.get('actor')
                                     or bool(d['outs'] & {'sessionState', 'vikjaState', 'odalState'})))
